@@ -286,7 +286,8 @@ def random_query(rng, kinds=None, values=None, n_entities=None, depth=3, n_preds
             q.select_tokens.append([ident(a), sym("."), ident(acc), sym("("), sym(")")])
         else:
             content = rng.choice(["found", "a b", "x,y", "SELECT", "q\\\"uote", "tab\\\\t", "ünï", "WHERE it",
-                                  "two  blanks", "tab\there", " lead", "trail ", "nb\u00a0sp", "a   b    c", "line\nbreak"])
+                                  "two  blanks", "tab\there", " lead", "trail ", "nb\u00a0sp", "a   b    c", "line\nbreak",
+                                  "uni\\\\u003c", "amp\\\\u0026"])
             q.select_items.append(("string", '"' + content + '"'))
             q.select_tokens.append([strlit(content)])
     flatten(q)
